@@ -14,3 +14,7 @@ claim("C18", "Hypothesis model-based history generation + bounded-exhaustive rul
       "Histories of add_rule/startTestRun/stopTestRun/status are replayed on StreamResultRouter and on a reference router (prefix rule > id rule > fallback > raise); every sink log must match exactly (destination, fields, consumed segment, start/stop counts incl. mid-run rules). StreamToQueue(code) followed by a consuming router must be the identity for 1..3 nested codes. Exhaustive over <=2 rules x 10 route codes x 3 ids.",
       "Each prefix/test id registered once; a sink registered for start/stop at most once; run brackets alternate.",
       "DESIGN.md 4/C18")
+claim("C19", "Hypothesis property-based testing + bounded-exhaustive enumeration of small suite trees against reference flatten/filter/sort computed on the spec; in-process testtools.run --list/--load-list",
+      "Generated suite trees (plain / subclass / sort_tests / non-mutating filter_by_ids, empty suites, duplicate ids) are built from real unittest/testtools objects; iterate_tests must equal the reference pre-order, filter_by_ids the reference filtered sequence and grouping, sorted_tests must raise ValueError iff ids repeat and otherwise return the same tests with plain suites flattened, custom suites whole and keys ordered; testtools.run.main is driven in-process for --list and --load-list (incl. empty list files).",
+      "Process-level behaviour is exercised through testtools.run.main in-process (SystemExit captured), not through a child interpreter; placement of empty custom suites not asserted.",
+      "DESIGN.md 4/C19")
